@@ -212,11 +212,13 @@ class LibraryController:
                 if future.get() is None:
                     continue
                 validation.check_instance(future.get(), Mapping)
+                # Validate the whole answer before merging any of it.
                 for uri, images in future.get().items():
                     if uri not in (backends_to_uris[backend] or ()):
                         msg = f"Got unknown image URI: {uri}"
                         raise exceptions.ValidationError(msg)
                     validation.check_instances(images, Image)
+                for uri, images in future.get().items():
                     results[uri] += tuple(images)
         return results
 
@@ -243,13 +245,15 @@ class LibraryController:
                 result = future.get()
                 if result is not None:
                     validation.check_instance(result, Mapping)
+                    # Validate the whole answer before merging any of it.
                     for uri, tracks in result.items():
                         if uri not in (backends_to_uris[backend] or ()):
                             msg = f"Got unknown lookup URI: {uri}"
                             raise exceptions.ValidationError(msg)
+                        validation.check_instances(tracks, Track)
+                    for uri, tracks in result.items():
                         # TODO: Consider making Track.uri field mandatory, and
                         # then remove this filtering of tracks without URIs.
-                        validation.check_instances(tracks, Track)
                         results[uri] = [track for track in tracks if track.uri]
 
         return results
